@@ -473,6 +473,7 @@ func (r *runner) houtOf(h g.HandleResult) string {
 // runCore: one (state, message) pair on a core node.
 func (r *runner) runCore(c *caseJ) {
 	run, w, mat := r.run, r.w, r.mat
+	mat.CanonMsg(c.Msg)
 	c.Msg.Fill()
 	w.Install(c.State)
 	n := w.Node("core", c.State)
@@ -581,6 +582,7 @@ func (r *runner) runCore(c *caseJ) {
 // the combined validator.
 func (r *runner) runFlavour(c *caseJ) {
 	run, w, mat := r.run, r.w, r.mat
+	mat.CanonMsg(c.Msg)
 	c.Msg.Fill()
 	w.Install(c.State)
 	n := w.Node(c.Flavour, c.State)
